@@ -56,7 +56,7 @@ type UField struct {
 
 // UDecl is a nested declaration.
 type UDecl struct {
-	Kind     string // struct resource enum sinterface rinterface
+	Kind     string // struct resource enum sinterface rinterface event
 	Name     string
 	Fields   []UField
 	Conforms []string
@@ -314,6 +314,12 @@ func (c *UContract) Source(withChk bool) string {
 				conf = ": " + strings.Join(d.Conforms, ", ")
 			}
 			fmt.Fprintf(&b, "    access(all) %s interface %s%s {}\n", kw, d.Name, conf)
+		case "event":
+			var ps []string
+			for _, f := range d.Fields {
+				ps = append(ps, f.Name+": "+c.bare(f.Type))
+			}
+			fmt.Fprintf(&b, "    access(all) event %s(%s)\n", d.Name, strings.Join(ps, ", "))
 		case "enum":
 			fmt.Fprintf(&b, "    access(all) enum %s: %s {", d.Name, d.RawType)
 			for _, cs := range d.Cases {
@@ -491,6 +497,9 @@ func GenUContract(ch Chooser, name string) *UContract {
 			d.Fields = append(d.Fields, c.randField(ch, upto, kind == "resource"))
 		}
 	}
+	if Chance(ch, "event", 1, 3) {
+		c.Decls = append(c.Decls, &UDecl{Kind: "event", Name: c.fresh("Ev"), Fields: []UField{{Name: c.fresh("f"), Type: &UType{K: "Int"}, Access: "access(all)"}}})
+	}
 	for k := 0; k < ch.Intn("cfields", 4); k++ {
 		f := c.randField(ch, len(c.Decls), true)
 		if comps := c.composites(); Chance(ch, "capfield", 1, 4) {
@@ -626,6 +635,8 @@ func (c *UContract) Mutate(ch Chooser) string {
 		switch k {
 		case "field-retype-subtle", "field-retype-sibling":
 			weights[i] = 8
+		case "kind-change":
+			weights[i] = 9
 		case "conformance-swap":
 			weights[i] = 5
 		case "iface-inherit-remove":
@@ -893,27 +904,59 @@ func (c *UContract) Mutate(ch Chooser) string {
 		d := es[ch.Intn("enum", len(es))]
 		d.RawType = []string{"UInt16", "Int8", "UInt8"}[ch.Intn("raw", 2)]
 	case "kind-change":
+		// the declaration keeps its name and becomes another kind of declaration;
+		// fields are kept as far as the new kind allows, conformances are dropped
 		var cand []*UDecl
-		for _, d := range comps {
-			ok := !c.refs(d.Name) && len(d.Conforms) == 0
-			for _, f := range d.Fields {
-				if c.isResource(f.Type) {
-					ok = false
-				}
-			}
-			if ok {
+		for _, d := range c.Decls {
+			if !c.refs(d.Name) {
 				cand = append(cand, d)
 			}
 		}
 		if len(cand) == 0 {
 			return ""
 		}
-		d := cand[ch.Intn("decl", len(cand))]
-		if d.Kind == "struct" {
-			d.Kind = "resource"
-		} else {
-			d.Kind = "struct"
+		// prefer declarations with stored instances (composites and enums)
+		var stored []*UDecl
+		for _, d := range cand {
+			if d.Kind == "struct" || d.Kind == "resource" || d.Kind == "enum" {
+				stored = append(stored, d)
+			}
 		}
+		if len(stored) > 0 && !Chance(ch, "unstored", 1, 4) {
+			cand = stored
+		}
+		d := cand[ch.Intn("decl", len(cand))]
+		var targets []string
+		for _, k := range []string{"struct", "resource", "enum", "sinterface", "rinterface", "event", "event"} {
+			if k != d.Kind {
+				targets = append(targets, k)
+			}
+		}
+		from, to := d.Kind, targets[ch.Intn("tokind", len(targets))]
+		d.Kind = to
+		d.Conforms = nil
+		d.Cases, d.RawType = nil, ""
+		var keep []UField
+		for _, f := range d.Fields {
+			prim := f.Type.K == "Int" || f.Type.K == "Int8" || f.Type.K == "String" || f.Type.K == "Bool"
+			switch to {
+			case "resource":
+				keep = append(keep, f)
+			case "struct":
+				if !c.isResource(f.Type) {
+					keep = append(keep, f)
+				}
+			case "event":
+				if prim {
+					keep = append(keep, f)
+				}
+			}
+		}
+		d.Fields = keep
+		if to == "enum" {
+			d.Cases, d.RawType = []string{"c0", "c1"}, "UInt8"
+		}
+		kind = "kind-change:" + from + "->" + to
 	case "contract-field-add":
 		c.Fields = append(c.Fields, c.randField(ch, len(c.Decls), true))
 	case "contract-field-remove":
@@ -1001,6 +1044,9 @@ func (c *UContract) wellFormed() bool {
 			if !ok(f.Type, i, d.Kind == "resource") {
 				return false
 			}
+		}
+		if (d.Kind == "enum" || d.Kind == "event") && len(d.Conforms) > 0 {
+			return false
 		}
 		seenConf := map[string]bool{}
 		for _, cf := range d.Conforms {
@@ -1118,6 +1164,20 @@ func GenUpdatePair(ch Chooser) *UpdatePair {
 				}
 			}
 		}
+		// the same values behind AnyStruct / AnyResource containers
+		var anyS, anyR []string
+		for _, d := range v1.Decls {
+			switch d.Kind {
+			case "struct":
+				anyS = append(anyS, "C."+d.Name+"()")
+			case "enum":
+				anyS = append(anyS, "C."+d.Name+"."+d.Cases[0])
+			case "resource":
+				anyR = append(anyR, "<- C.mk"+d.Name+"()")
+			}
+		}
+		fmt.Fprintf(&b, "    let anys: [AnyStruct] = [%s]\n    a.storage.save(anys, to: /storage/anys)\n", strings.Join(anyS, ", "))
+		fmt.Fprintf(&b, "    let anyr: @[AnyResource] <- [%s]\n    a.storage.save(<- anyr, to: /storage/anyr)\n", strings.Join(anyR, ", "))
 		b.WriteString("  }\n}\n")
 		p.StoreTx = append(p.StoreTx, b.String())
 	}
@@ -1193,6 +1253,37 @@ func GenUpdatePair(ch Chooser) *UpdatePair {
 				}
 				fmt.Fprintf(&body, "  } else { out.append(\"%d:%s cannot be copied\") }\n", it.Acct, it.Path)
 			}
+		}
+	}
+	// the AnyStruct / AnyResource containers (only when no element type was removed
+	// with #removedType: such elements are unreadable by design)
+	containersReadable := true
+	for _, d := range v1.Decls {
+		if (d.Kind == "struct" || d.Kind == "enum" || d.Kind == "resource") && removed[d.Name] {
+			containersReadable = false
+		}
+	}
+	if containersReadable && len(p.Lost) == 0 {
+		for _, acct := range []int{1, 2} {
+			acc := fmt.Sprintf("getAuthAccount<auth(Storage) &Account>(0x%x)", acct)
+			fmt.Fprintf(&body, "  if let anys = %s.storage.copy<[AnyStruct]>(from: /storage/anys) {\n", acc)
+			i := 0
+			for _, d := range v1.Decls {
+				if d.Kind == "struct" || d.Kind == "enum" {
+					fmt.Fprintf(&body, "    if !anys[%d].isInstance(Type<C.%s>()) { out.append(\"%d:anys[%d] is not a %s\") }\n", i, d.Name, acct, i, d.Name)
+					i++
+				}
+			}
+			fmt.Fprintf(&body, "    if anys.length != %d { out.append(\"%d:anys has another length\") }\n  } else { out.append(\"%d:anys cannot be copied\") }\n", i, acct, acct)
+			fmt.Fprintf(&body, "  if let anyr = %s.storage.borrow<&[AnyResource]>(from: /storage/anyr) {\n", acc)
+			i = 0
+			for _, d := range v1.Decls {
+				if d.Kind == "resource" {
+					fmt.Fprintf(&body, "    if !anyr[%d].isInstance(Type<@C.%s>()) { out.append(\"%d:anyr[%d] is not a %s\") }\n", i, d.Name, acct, i, d.Name)
+					i++
+				}
+			}
+			fmt.Fprintf(&body, "    if anyr.length != %d { out.append(\"%d:anyr has another length\") }\n  } else { out.append(\"%d:anyr cannot be borrowed\") }\n", i, acct, acct)
 		}
 	}
 	sort.Strings(p.Lost)
